@@ -79,6 +79,63 @@ type EzD struct {
 	OwnerID string `dials:"owner"`
 }
 
+// types whose ONLY aliases sit inside a pointer-to-struct section, an embedded
+// pointer, the elements of a slice / an array of structs
+type EzESection struct {
+	Weight int    `dialsalias:"w"`
+	ZoneID string `dials:"zone_id" dialsalias:"zone"`
+	Note   string
+}
+
+type EzE struct {
+	ConfFile string
+	Sec      *EzESection
+	Plain    int
+}
+
+type EzFCommon struct {
+	RegionID string `dialsalias:"old_region"`
+	ShardNo  int
+}
+
+type EzF struct {
+	ConfFile string
+	*EzFCommon
+	Plain string
+}
+
+type EzGItem struct {
+	Weight int64  `dialsalias:"w"`
+	Label  string `dials:"label"`
+}
+
+type EzG struct {
+	ConfFile string
+	Items    []EzGItem
+	Plain    bool
+}
+
+type EzHInner struct {
+	Depth uint16 `dialsalias:"old_depth"`
+}
+
+type EzHItem struct {
+	Inner *EzHInner
+	Tag   string
+}
+
+type EzH struct {
+	ConfFile string
+	Pairs    []EzHItem `dials:"pairs"` // (not an array: Pointerify makes [N]T a *[N]T, which no transformer recurses into)
+	Deep     *struct {
+		Items []EzGItem
+	}
+}
+
+func (c *EzE) ConfigPath() (string, bool) { return c.ConfFile, c.ConfFile != "" }
+func (c *EzF) ConfigPath() (string, bool) { return c.ConfFile, c.ConfFile != "" }
+func (c *EzG) ConfigPath() (string, bool) { return c.ConfFile, c.ConfFile != "" }
+func (c *EzH) ConfigPath() (string, bool) { return c.ConfFile, c.ConfFile != "" }
 func (c *EzA) ConfigPath() (string, bool) { return c.ConfFile, c.ConfFile != "" }
 func (c *EzB) ConfigPath() (string, bool) { return c.ConfFile, c.ConfFile != "" }
 func (c *EzC) ConfigPath() (string, bool) { return c.ConfFile, c.ConfFile != "" }
@@ -130,6 +187,10 @@ var ezPalette = []ezType{
 	{reflect.TypeOf(EzB{}), runEz[EzB](func(p string) *EzB { return &EzB{ConfFile: p} })},
 	{reflect.TypeOf(EzC{}), runEz[EzC](func(p string) *EzC { return &EzC{ConfFile: p} })},
 	{reflect.TypeOf(EzD{}), runEz[EzD](func(p string) *EzD { return &EzD{ConfFile: p} })},
+	{reflect.TypeOf(EzE{}), runEz[EzE](func(p string) *EzE { return &EzE{ConfFile: p} })},
+	{reflect.TypeOf(EzF{}), runEz[EzF](func(p string) *EzF { return &EzF{ConfFile: p} })},
+	{reflect.TypeOf(EzG{}), runEz[EzG](func(p string) *EzG { return &EzG{ConfFile: p} })},
+	{reflect.TypeOf(EzH{}), runEz[EzH](func(p string) *EzH { return &EzH{ConfFile: p} })},
 }
 
 func isLeafType(t reflect.Type) bool {
@@ -165,6 +226,10 @@ func (g *gen) walk(t reflect.Type, path []string, underAlias bool) {
 				k := mark + g.r.Intn(len(g.leaves)-mark)
 				g.targets = append(g.targets, target{path: p, inner: g.leaves[k][len(p):], leaf: g.leafT[k]})
 			}
+		case (ft.Kind() == reflect.Slice || ft.Kind() == reflect.Array) && ft.Elem().Kind() == reflect.Struct:
+			// the first element of a slice / array of structs (an alias on the
+			// slice-typed field itself is not a target)
+			g.walk(ft.Elem(), append(p, elemStep), underAlias || aliased)
 		case isLeafType(sf.Type):
 			if aliased && !underAlias {
 				g.targets = append(g.targets, target{path: p, leaf: sf.Type})
